@@ -15,10 +15,8 @@ import (
 //   - ~@R and ~:@R for every n in 1..3999, and the numbers just outside (an error is expected);
 //   - ~R and ~:R for the numbers that print each entry of the word tables: 0..19, the tens, tens + units,
 //     hundreds, 10^3k and its neighbours for every scale word, negative numbers.
-// The known findings are respected through the static predicate proved exact in Coq
-// (EnglishProofs.english_ok, C15_english_loop_exact; C15_dirR_roman_exact): the English text is compared exactly
-// where english_ok holds (no group with tens 2..9 and units 0, nothing in the group of 10^18, below 10^66, ordinals
-// only of numbers that do not end in 0 beyond 10), the Roman text everywhere but at 0.
+// What is compared is what is proved in Coq of the unchanged code: the English text for every integer, an error from
+// 10^66 on (C15_english_loop, since repo_fixes/C15-1..4), the Roman text everywhere, an error outside 1..3999 (C15_dirR_roman_all_integers, since repo_fixes/C15-5).
 // Every difference is reported with its input.
 
 func specRoman(old bool, n int) string {
@@ -123,24 +121,6 @@ func specEnglish(ordinal bool, z *big.Int) (string, bool) {
 	return strings.Join(ws, " "), true
 }
 
-// EnglishProofs.english_ok
-func englishOK(ordinal bool, z *big.Int) bool {
-	n := new(big.Int).Abs(z)
-	if n.Cmp(pow10[66]) >= 0 {
-		return false
-	}
-	for k, t := range groupsOf(n) {
-		if !(t%100 < 20 || t%10 != 0) || (k == 6 && t != 0) {
-			return false
-		}
-	}
-	if !ordinal || n.Sign() == 0 {
-		return true
-	}
-	r := int(new(big.Int).Mod(n, big.NewInt(100)).Int64())
-	return (1 <= r && r < 20) || r%10 != 0
-}
-
 func specSweep(ctx *common.Ctx) {
 	reported := map[string]int{}
 	violate := func(what, src, got, want string) {
@@ -165,12 +145,12 @@ func specSweep(ctx *common.Ctx) {
 			violate("specification sweep (the model could not be instantiated): ~R does not write the text of the directive definition", src, show(o), want)
 		}
 	}
-	// Roman numerals, both styles, the whole domain and its borders (0 is the known finding C15-roman-zero)
+	// Roman numerals, both styles, the whole domain and its borders
 	for n := 1; n <= 3999; n++ {
 		report(fmt.Sprintf(`(format nil "~@R" %d)`, n), specRoman(false, n), false)
 		report(fmt.Sprintf(`(format nil "~:@R" %d)`, n), specRoman(true, n), false)
 	}
-	for _, n := range []int{-1, -3999, 4000, 4001, 9999, 10000, 39990} {
+	for _, n := range []int{0, -1, -3999, 4000, 4001, 9999, 10000, 39990} {
 		report(fmt.Sprintf(`(format nil "~@R" %d)`, n), "", true)
 		report(fmt.Sprintf(`(format nil "~:@R" %d)`, n), "", true)
 	}
@@ -210,12 +190,8 @@ func specSweep(ctx *common.Ctx) {
 			if ordinal {
 				dir = "~:R"
 			}
-			if !englishOK(ordinal, z) {
-				ctx.Hist("spec-sweep:outside-english_ok")
-				continue
-			}
-			want, _ := specEnglish(ordinal, z)
-			report(fmt.Sprintf(`(format nil "%s" %s)`, dir, z.String()), want, false)
+			want, ok := specEnglish(ordinal, z)
+			report(fmt.Sprintf(`(format nil "%s" %s)`, dir, z.String()), want, !ok)
 		}
 	}
 }
